@@ -173,3 +173,186 @@ Example C20_nonvacuous :
    pure_seq ff st fi b (ls 0) [] = 15%N /\ c_store c 10%N = Some 6%N /\ c_store c 11%N = Some 9%N) /\
   (exists ks, built [(0, []); (0, [1%N]); (0, [1%N; 3%N])] 0%N = Some ks /\ existsb (N.eqb 3%N) ks = true).
 Proof. vm_compute. repeat split; try reflexivity. eexists; split; reflexivity. Qed.
+
+(* ============================================================================================ *)
+(* wave 3: ANY set of shared locations, write patterns, the remaining operations                *)
+(* ============================================================================================ *)
+From Coq Require Import String.
+From Pq Require Import Conc.Footprint Proofs.FootprintProofs.
+
+(* The general footprint theorem.  Every shared location is classified Frozen (never written after publication),
+   Idem v (written idempotently, always with the same value v) or Priv i (owned by thread i); the classification
+   is ARBITRARY (the run-time monitor instantiates it with the regenerated inventory of module-level objects,
+   default arguments, class attributes, attributes of shared thrift objects ...).  For any number of threads that
+   obey it ([okp]) and EVERY schedule: each finished thread holds its solo result and has left in its own
+   locations what it leaves there alone (part files = sequential bytes); Frozen locations never change; Idem
+   locations hold nothing or their one value; every logged write is an Idem write or a write of the owner.
+   C20_memo_confluence_partial (no Priv locations) and C20_part_writer (no Idem locations) are instances. *)
+Theorem C20_footprint_confluence :
+  forall (V R : Type) (cls : N -> lclass V) (base : store V)
+         (ps : pool V R) (rs : nat -> R) (pfs : nat -> store V) (s0 : store V),
+    (forall i, okp cls base i s0 nothing (ps i) (rs i) (pfs i)) -> consistentc cls base s0 ->
+  forall sched : list nat,
+    let c := exec sched (init ps s0) in
+    (forall i r, result c i = Some r ->
+       r = fst (solo (ps i) s0) /\ forall k, cls k = Priv i -> c_store c k = snd (solo (ps i) s0) k) /\
+    (forall k, cls k = Frozen -> c_store c k = s0 k) /\
+    consistentc cls base (c_store c) /\
+    Forall (log_legal cls) (c_log c).
+Proof. exact footprint_confluence. Qed.
+Print Assumptions C20_footprint_confluence.
+
+(* the memo discipline is the instance without Priv locations *)
+Theorem C20_memo_discipline_is_instance :
+  forall (V R : Type) (cls : N -> lclass V) (base : store V) i pv kn (p : prog V R) r,
+    (forall k, memo_of cls k = None -> cls k = Frozen) ->
+    ok (memo_of cls) base kn p r -> okp cls base i pv kn p r pv.
+Proof. exact ok_okp. Qed.
+Print Assumptions C20_memo_discipline_is_instance.
+
+(* the decidable footprint condition evaluated (extracted) on the write events the monitor observed for every
+   location of the regenerated inventory: acceptance = ONE table exists under which every observed write is a
+   memo write (absent -> the table value, or the table value again) and no write sits at a site of a refuted
+   pattern; conversely every memo write passes the per-event test (a rejected log refutes the premise) *)
+Theorem C20_footprint_check_sound : forall evs, footprint_ok evs = true ->
+  exists memo : N -> option N, forall e, In e evs -> ev_legal memo e /\ pat_refuted (e_pat e) = false.
+Proof. exact footprint_ok_sound. Qed.
+Print Assumptions C20_footprint_check_sound.
+
+Theorem C20_footprint_check_necessary : forall memo e,
+  ev_legal memo e -> pat_refuted (e_pat e) = false -> ev_ok e = true.
+Proof. exact legal_ev_ok. Qed.
+Print Assumptions C20_footprint_check_necessary.
+
+(* ---- write patterns (finer step relation: one Get / Put per load / store of the pattern) ---- *)
+(* confluent: check-then-act without read-back, unconditional store of the one value, non-publishing peek
+   (with read-back: C20_memo_ops_disciplined) *)
+Theorem C20_check_then_act_confluent :
+  forall (V R : Type) (memo : N -> option V) (base : store V) k ks g (cont : V -> prog V R) kn r,
+    memo k = Some (g (map base ks)) -> frozen V memo ks ->
+    (forall kn', ok memo base kn' (cont (g (map base ks))) r) -> ok memo base kn (cta_noreadback k ks g cont) r.
+Proof. exact ok_cta_noreadback. Qed.
+Print Assumptions C20_check_then_act_confluent.
+
+Theorem C20_idem_store_confluent :
+  forall (V R : Type) (memo : N -> option V) (base : store V) k ks g (cont : V -> prog V R) kn r,
+    memo k = Some (g (map base ks)) -> frozen V memo ks ->
+    (forall kn', ok memo base kn' (cont (g (map base ks))) r) -> ok memo base kn (idem_store k ks g cont) r.
+Proof. exact ok_idem_store. Qed.
+Print Assumptions C20_idem_store_confluent.
+
+Theorem C20_peek_confluent :
+  forall (V R : Type) (memo : N -> option V) (base : store V) k ks g (cont : V -> prog V R) kn r,
+    memo k = Some (g (map base ks)) -> frozen V memo ks ->
+    (forall kn', ok memo base kn' (cont (g (map base ks))) r) -> ok memo base kn (peek k ks g cont) r.
+Proof. exact ok_peek. Qed.
+Print Assumptions C20_peek_confluent.
+
+(* refuted: read-modify-write / augmented assignment, for EVERY g that is not idempotent at the initial value *)
+Theorem C20_rmw_refuted : forall (V : Type) (g : option V -> V) (s0 : store V) (k : N),
+  g (Some (g (s0 k))) <> g (s0 k) ->
+  let p : prog V (option V) := rmw k g (fun o => Ret o) in
+  exists sched r, result (exec sched (init (fun _ => p) s0)) 1 = Some r /\ r <> fst (solo p s0).
+Proof. exact rmw_refuted. Qed.
+Print Assumptions C20_rmw_refuted.
+
+Theorem C20_rmw_lost_update_refuted :
+  let p : prog N (option N) := rmw 5%N bump (fun o => Ret o) in
+  c_store (exec [0; 1; 0; 1; 0; 1] (init (two p p) empty)) 5%N = Some 1%N /\
+  c_store (exec [0; 0; 0; 1; 1; 1] (init (two p p) empty)) 5%N = Some 2%N /\
+  kinds N.eqb [0; 1; 0; 1] (init (two p p) empty) = [KRead; KRead; KMemoWrite; KMemoWrite] /\
+  In KDestructiveWrite (kinds N.eqb [0; 0; 0; 1; 1] (init (two p p) empty)).
+Proof. exact rmw_lost_update. Qed.
+Print Assumptions C20_rmw_lost_update_refuted.
+
+Theorem C20_set_restore_refuted :
+  let s0 : store N := upd empty 5%N 10%N in
+  let a : prog N (option N) := set_restore 5%N 99%N 0%N (fun cur => Ret cur) in
+  let b : prog N (option N) := set_restore 5%N 77%N 0%N (fun cur => Ret cur) in
+  result (exec [0; 0; 1] (init (two a (rd 5%N)) s0)) 1 = Some (Some 99%N) /\
+  fst (solo (rd 5%N) s0) = Some 10%N /\
+  In KDestructiveWrite (kinds N.eqb [0; 0] (init (two a (rd 5%N)) s0)) /\
+  c_store (exec [0; 0; 1; 1; 0; 0; 1; 1] (init (two a b) s0)) 5%N = Some 99%N /\
+  result (exec [0; 0; 1; 1; 0; 0; 1; 1] (init (two a b) s0)) 0 = Some (Some 77%N) /\
+  fst (solo a s0) = Some 99%N.
+Proof. exact set_restore_refuted. Qed.
+Print Assumptions C20_set_restore_refuted.
+
+Theorem C20_publish_update_refuted :
+  let p : prog N N := publish_update 7%N 1000%N 42%N (fun v => Ret v) in
+  result (exec [0; 0; 1] (init (two p p) empty)) 1 = Some 1000%N /\
+  fst (solo p empty) = 42%N /\
+  In KDestructiveWrite (kinds N.eqb [0; 0; 0] (init (two p p) empty)).
+Proof. exact publish_update_refuted. Qed.
+Print Assumptions C20_publish_update_refuted.
+
+Theorem C20_scratch_refuted :
+  let a : prog N (option N) := scratch 3%N 11%N (fun o => Ret o) in
+  let b : prog N (option N) := scratch 3%N 22%N (fun o => Ret o) in
+  result (exec [0; 1; 0] (init (two a b) empty)) 0 = Some (Some 22%N) /\
+  fst (solo a empty) = Some 11%N /\
+  In KDestructiveWrite (kinds N.eqb [0; 1] (init (two a b) empty)).
+Proof. exact scratch_refuted. Qed.
+Print Assumptions C20_scratch_refuted.
+
+(* ---- the remaining operations of the property text ---- *)
+(* statistics, count, filtered / column reads, head and slices (derived handle + read), iteration over row groups,
+   pickling (the copy carries a memo when it is there and recomputes otherwise): each is disciplined and denotes a
+   pure function of the immutable data ... *)
+Theorem C20_api_ops_disciplined :
+  forall (V R : Type) (memo : N -> option V) (base : store V) (f : N -> list (option V) -> V) (err : R)
+         (o : opdesc V R) kn,
+    op_wf V R memo base f o -> ok memo base kn (prog_of V R f err o) (pure_of V R base f o).
+Proof. exact ok_prog_of. Qed.
+Print Assumptions C20_api_ops_disciplined.
+
+(* ... hence any number of threads issuing ANY mix of them on the shared handle obtain, under EVERY schedule, that
+   pure function (= what each obtains alone) *)
+Theorem C20_api_ops_confluent :
+  forall (V R : Type) (memo : N -> option V) (base : store V) (f : N -> list (option V) -> V) (err : R)
+         (ops : nat -> opdesc V R) (s0 : store V),
+    (forall i, op_wf V R memo base f (ops i)) -> consistent memo base s0 ->
+    forall sched i r,
+      result (exec sched (init (fun j => prog_of V R f err (ops j)) s0)) i = Some r -> r = pure_of V R base f (ops i).
+Proof. exact api_ops_confluent. Qed.
+Print Assumptions C20_api_ops_confluent.
+
+(* non-vacuity of the general theorem: key 1 frozen (schema), key 7 Idem 42 (a memo), keys 20/21 private to threads
+   0/1 (their part files); both threads memoise 7 and write their own key from it; interleaved *)
+Definition nv_cls (k : N) : lclass N :=
+  if N.eqb k 1 then Frozen else if N.eqb k 7 then Idem 42%N else if N.eqb k 20 then Priv 0 else if N.eqb k 21 then Priv 1 else Frozen.
+Definition nv_writer (mine : N) : prog N N :=
+  Get 7%N (fun o => match o with
+                    | Some v => Put mine v (Get mine (fun x => Ret (match x with Some y => y | None => 0%N end)))
+                    | None => Get 1%N (fun b => Put 7%N (N.succ (match b with Some x => x | None => 0%N end))
+                                (Put mine 42%N (Get mine (fun x => Ret (match x with Some y => y | None => 0%N end)))))
+                    end).
+Definition nv_pool2 : pool N N := fun i => match i with 0 => nv_writer 20%N | _ => nv_writer 21%N end.
+
+Example C20_nonvacuous_footprint_premise :
+  okp nv_cls nv_base 0 nv_base nothing (nv_pool2 0) 42%N (upd nv_base 20%N 42%N) /\
+  okp nv_cls nv_base 1 nv_base nothing (nv_pool2 1) 42%N (upd nv_base 21%N 42%N).
+Proof.
+  split.
+  - eapply p_get_idem; [reflexivity| |].
+    + eapply p_get_frozen; [reflexivity|]. cbn. eapply p_put_idem; [reflexivity|].
+      eapply p_put_priv; [reflexivity|]. eapply p_get_priv; [reflexivity|]. cbn. constructor.
+    + eapply p_put_priv; [reflexivity|]. eapply p_get_priv; [reflexivity|]. cbn. constructor.
+  - eapply p_get_idem; [reflexivity| |].
+    + eapply p_get_frozen; [reflexivity|]. cbn. eapply p_put_idem; [reflexivity|].
+      eapply p_put_priv; [reflexivity|]. eapply p_get_priv; [reflexivity|]. cbn. constructor.
+    + eapply p_put_priv; [reflexivity|]. eapply p_get_priv; [reflexivity|]. cbn. constructor.
+Qed.
+
+Example C20_nonvacuous_footprint :
+  let c := exec [0; 1; 0; 1; 0; 1; 1; 0; 0; 1; 1; 0] (init nv_pool2 nv_base) in
+  result c 0 = Some 42%N /\ result c 1 = Some 42%N /\ c_store c 20%N = Some 42%N /\ c_store c 21%N = Some 42%N /\
+  c_store c 7%N = Some 42%N /\ c_store c 1%N = Some 41%N /\
+  footprint_ok [mkEv 7 None (Some 42%N) PCheckThenAct; mkEv 7 (Some 42%N) (Some 42%N) PPlain; mkEv 9 None (Some 1%N) PPlain] = true /\
+  footprint_ok [mkEv 7 None (Some 1000%N) PCheckThenAct; mkEv 7 (Some 1000%N) (Some 42%N) PCheckThenAct] = false /\
+  footprint_ok [mkEv 7 None (Some 42%N) PAugmented] = false /\
+  footprint_ok [mkEv 7 None (Some 42%N) PPlain; mkEv 7 None (Some 43%N) PPlain] = false /\
+  site_static_ok (mkSite 0 "writer.py"%string 10 10 PMutCall BGlobal false) = false /\
+  site_static_ok (mkSite 0 "util.py"%string 10 10 PCheckThenAct BGlobal false) = true /\
+  site_static_ok (mkSite 0 "writer.py"%string 10 10 PMutCall BGlobal true) = true.
+Proof. vm_compute. repeat split; reflexivity. Qed.
